@@ -15,6 +15,7 @@ use report::Tier;
 
 pub fn run_property(id: &str, tier: Tier) -> i32 {
     run::install_panic_hook();
+    cfgs::install_reuse_annotator();
     match id {
         "C01" => props::c01::run(tier),
         "C02" => props::c02::run(tier),
